@@ -1,6 +1,6 @@
 (* C14 property theorems. Nothing but statements closed by `exact lemma` and Print Assumptions. *)
-From Coq Require Import ZArith List Bool.
-From OG Require Import C14.Model C14.Proofs C14.Inv.
+From Coq Require Import ZArith List Bool Lia.
+From OG Require Import C14.Model C14.Proofs C14.Inv C14.XModel C14.XProofs C14.XInv.
 Import ListNotations.
 Open Scope Z_scope.
 
@@ -105,3 +105,99 @@ Example C14_example :
   let '(w, log) := run w0 [AddGroup g1 true; AddGroup g2 false; Tick 150; Tick 151; Alter 7 0; Tick 1000] in
   obs_node w = [3] /\ map g_id (groups w) = [2] /\ map (fun r => (n_id (del_shard r), del_now r)) log = [(1, 151); (2, 151)].
 Proof. vm_compute. repeat split. Qed.
+
+(* ======================================================================================================
+   Extended model (XModel.v): catalogue with shard groups AND index groups as meta.Data builds it, ALTER of the three
+   durations, ExpandGroups, one store node per partition. `true` = repaired variant, `false` = today's code. *)
+
+(* -- pruning (catalogue side of "expired shards are eventually removed from the catalogue") -- *)
+
+(* exactness: after the repaired pruning of id, every surviving group is an old group with the same id / policy /
+   span / deleted flag, and a shard's mark differs from before only if the shard has the pruned id *)
+Theorem C14_prune_exact : forall c id g',
+  In g' (c_sgs (prune_sg true c id)) ->
+  exists g, In g (c_sgs c) /\ sg_same_head g g' /\
+    Forall2 (fun x y => cs_same x y /\ (cs_md y = cs_md x \/ (cs_md y = true /\ cs_id x = id))) (sg_shards g) (sg_shards g').
+Proof. exact prune_sg_exact. Qed.
+Print Assumptions C14_prune_exact.
+
+Theorem C14_prune_index_exact : forall c id g',
+  In g' (c_igs (prune_ig true c id)) ->
+  exists g, In g (c_igs c) /\ ig_same_head g g' /\
+    Forall2 (fun x y => ci_same x y /\ (ci_md y = ci_md x \/ (ci_md y = true /\ ci_id x = id))) (ig_ixs g) (ig_ixs g').
+Proof. exact prune_ig_exact. Qed.
+Print Assumptions C14_prune_index_exact.
+
+(* pruning never drops a group that still has a live shard: a group leaves the catalogue only if it was marked
+   deleted and each of its shards was marked before or is the shard being pruned *)
+Theorem C14_prune_never_drops_live_group : forall c id g,
+  In g (c_sgs c) -> ~ In (prune_mark_sg true id g) (c_sgs (prune_sg true c id)) ->
+  sg_del g = true /\ forall s, In s (sg_shards g) -> cs_md s = true \/ cs_id s = id.
+Proof. exact prune_sg_removes_only_dead. Qed.
+Print Assumptions C14_prune_never_drops_live_group.
+
+(* progress, for both variants: a group marked deleted whose shards are all deleted (marked, or the one pruned now)
+   is gone after the pruning - given ascending shard ids inside the group and unique group ids, which the id
+   counters guarantee *)
+Theorem C14_prune_progress : forall rep c id g,
+  In g (c_sgs c) -> asc (map cs_id (sg_shards g)) -> sg_del g = true ->
+  (forall s, In s (sg_shards g) -> cs_md s = true \/ cs_id s = id) ->
+  (forall g2, In g2 (c_sgs c) -> sg_id g2 = sg_id g -> g2 = g) ->
+  forall g', In g' (c_sgs (prune_sg rep c id)) -> sg_id g' <> sg_id g.
+Proof. exact prune_sg_progress. Qed.
+Print Assumptions C14_prune_progress.
+
+Example C14_prune_progress_example :
+  let g := {| sg_id := 7; sg_rp := 1; sg_start := 0; sg_end := 10; sg_del := true;
+              sg_shards := [{| cs_id := 3; cs_pt := 0; cs_ix := 1; cs_md := true |}; {| cs_id := 4; cs_pt := 1; cs_ix := 2; cs_md := false |}] |} in
+  let c := {| c_pols := []; c_sgs := [g]; c_igs := []; c_ptnum := 2; c_maxsg := 7; c_maxsh := 4; c_maxig := 0; c_maxix := 2 |} in
+  asc (map cs_id (sg_shards g)) /\ (forall s, In s (sg_shards g) -> cs_md s = true \/ cs_id s = 4) /\ c_sgs (prune_sg false c 4) = [].
+Proof. cbn. repeat split; try lia; intros; intuition; subst; cbn; auto. Qed.
+
+(* -- index groups: an index never expires before a shard that uses it -- *)
+
+(* the invariant XInv (XInv.v): every index group holding the index of a shard ends no earlier than the shard's group
+   and belongs to the same policy (plus the id-freshness facts this needs). It holds for the empty catalogue ... *)
+Theorem C14_index_cover_init : forall ps n, XInv (cat0 ps n).
+Proof. exact XInv_init. Qed.
+
+(* ... and after EVERY trace of events - group creation for any timestamp, ALTER of duration / shard duration / index
+   duration, added partitions (ExpandGroups), stores creating shards and indexes, retention passes of any partition at
+   any clock reading, aborted passes, restarts - when the index-group choice is the repaired one; the pruning variant
+   does not matter. *)
+Theorem C14_index_cover_all_traces : forall repP es ps n, XInv (x_cat (fst (xrun true repP (xworld0 ps n) es))).
+Proof. intros. apply XInv_xrun. apply XInv_init. Qed.
+Print Assumptions C14_index_cover_all_traces.
+
+(* consequence, in terms of what the stores are told (IndexDurationInfos / DurationInfos): in every reachable
+   catalogue, whenever the duration info of an index makes it expired at a clock reading `now`, every shard whose
+   index it is - on any partition - is expired at `now` under its policy's duration in force. So the retention pass
+   deletes an index only when every shard referring to it is expired (and is deleted by the same rule). *)
+Theorem C14_index_deleted_only_after_its_shards : forall repP es ps n pt fi sg s now,
+  let c := x_cat (fst (xrun true repP (xworld0 ps n) es)) in
+  In fi (index_infos c pt) -> In sg (c_sgs c) -> In s (sg_shards sg) -> cs_ix s = si_id fi ->
+  expired (si_d fi) (si_end fi) now = true ->
+  expired (pol_d c (sg_rp sg)) (sg_end sg) now = true.
+Proof. intros repP es ps n pt fi sg s now c. apply infos_expiry. apply XInv_xrun. apply XInv_init. Qed.
+Print Assumptions C14_index_deleted_only_after_its_shards.
+
+(* non-vacuity: a reachable catalogue (repaired choice) in which one index group serves two shard groups, after an
+   ALTER that lengthened the shard duration gave the third group its own, longer index group *)
+Example C14_index_cover_example :
+  let H := 3600000000000 in
+  let c := x_cat (fst (xrun true true (xworld0 [{| xp_id := 1; xp_d := 0; xp_sgd := H; xp_igd := 4 * H |}] 2)
+                        [XCreate 1 (472140 * H); XCreate 1 (472141 * H); XAlter 1 None (Some (12 * H)) None; XCreate 1 (472142 * H)])) in
+  map (fun g => (sg_id g, map cs_ix (sg_shards g))) (c_sgs c) = [(1, [1; 2]); (2, [1; 2]); (3, [3; 4])] /\
+  map (fun g => (ig_id g, ig_end g - ig_start g)) (c_igs c) = [(1, 4 * H); (2, 12 * H)].
+Proof. vm_compute. auto. Qed.
+
+(* -- two clocks: the sql node admits writes by ITS clock (seconds), the store node expires shards by its own -- *)
+(* a point admitted at sql clock reading nowsec lies in a group ending at e > t; the store does not consider that
+   group expired as long as its clock is at most (e - t) ahead of the sql clock. With equal clocks an admitted point
+   is never in an expired shard; the code has no margin beyond that (a point at the very end of its group tolerates
+   no skew). The safety theorems above hold for arbitrary, even non-monotone, clock readings per pass. *)
+Theorem C14_admitted_point_not_expired_under_skew : forall d nowsec t e storenow,
+  0 < d -> write_accept d nowsec t = true -> t < e -> storenow <= nowsec * 1000000000 + (e - t) ->
+  expired d e storenow = false.
+Proof. exact admitted_not_expired_skew. Qed.
+Print Assumptions C14_admitted_point_not_expired_under_skew.
